@@ -62,6 +62,7 @@ func (s *Streamer) binlogPosition() Position {
 func (s *Streamer) Stream(ctx context.Context, sendTransaction SendTransactionFunc) error {
 	s.ctx = ctx
 	s.errChan = nil
+	verifPoint("stream.call")
 	conn, err := newSlaveConnection(func() (conn dumpConn, e error) {
 		return mysql.NewDumpConn(s.dsn, ctx)
 	})
@@ -77,7 +78,9 @@ func (s *Streamer) Stream(ctx context.Context, sendTransaction SendTransactionFu
 		return err.msgf("startDumpFromBinlogPosition fail in pos: %+v", s.nowPos)
 	}
 	s.errChan = conn.errChan
+	verifPoint("stream.spawned")
 	pos, err = s.parseEvents(ctx, events)
+	verifPoint("stream.parsed")
 	s.SetBinlogPosition(pos)
 	if err != nil {
 		return err.msgf("parseEvents fail in pos: %+v", err)
@@ -129,9 +132,12 @@ func (s *Streamer) parseEvents(ctx context.Context, events <-chan replication.Bi
 		next := pos
 		next.Offset = ev.NextPosition()
 		tran := newTransaction(now, next, int64(ev.Timestamp()), tranEvents)
+		verifPoint("parser.handlerCall")
 		if err = s.sendTransaction(tran); err != nil {
+			verifPoint("parser.handlerErr")
 			return fmt.Errorf("sendTransaction error: %v", err)
 		}
+		verifPoint("parser.handlerOk")
 		pos = next
 		tranEvents = nil
 		autocommit = true
@@ -141,13 +147,17 @@ func (s *Streamer) parseEvents(ctx context.Context, events <-chan replication.Bi
 	for {
 		var ev replication.BinlogEvent
 		var ok bool
+		verifPoint("parser.select")
 		select {
 		case ev, ok = <-events:
 			if !ok {
+				verifPoint("parser.sawClosed")
 				_log.Infof("parseEvents reached end of binlog event stream")
 				return pos, nil
 			}
+			verifPoint("parser.gotEvent")
 		case <-ctx.Done():
+			verifPoint("parser.sawCtx")
 			_log.Infof("parseEvents stopping early due to binlog Streamer service shutdown or client disconnect")
 			return pos, nil
 		}
